@@ -25,7 +25,7 @@ class Prop(GraphProp):
             "the final sweep equal a fresh undisturbed computation.  non-trivial = a fault fired while at least two "
             "elements were in flight (nesting depth >= 2) and at least 3 value-returning requests followed; distinct = "
             "distinct sha256 of the event log")
-    probes = ["fault_SimFault", "fault_RuntimeError", "fault_MemoryError", "fault_KeyboardInterrupt", "fault_site_H",
+    probes = ["fmt_implicit", "kpm_world", "fault_SimFault", "fault_RuntimeError", "fault_MemoryError", "fault_KeyboardInterrupt", "fault_site_H",
               "fault_site_S", "fault_site_M", "fault_site_Hc", "fault_sticky_rehit", "fault_depth_ge2", "fault_in_build",
               "recompute_after_eviction", "op_raised_by_fault", "final_checked", "multi_comp_world", "chain_world",
               "fault_in_array_op", "fault_in_view_op"]
@@ -106,6 +106,8 @@ class Prop(GraphProp):
                 {**base, "herm": False, "sizes": [2, 1], "npert": 2, "terms": [[0, 1], [1, 0]], "fmt": "scalar_vecs", "comps": [{**comp, "herm": False}]},
                 {**base, "herm": True, "sizes": [1, 2], "npert": 1, "terms": [[1]], "internals": True, "comps": [comp]},
                 {**base, "herm": True, "sizes": [2, 2], "npert": 1, "terms": [[1]], "comps": [{**comp, "solver": "custom"}, {**comp, "solver": "legacy"}]},
+                {**base, "herm": True, "sizes": [1, 3], "npert": 1, "terms": [[1]], "fmt": "implicit", "comps": [{**comp, "kpm": False}]},
+                {**base, "herm": True, "sizes": [1, 1, 3], "npert": 1, "terms": [[1]], "fmt": "implicit", "comps": [{**comp, "kpm": True}]},
             ]
         return fam
 
